@@ -73,7 +73,7 @@ def m_token_dup(r, lang, b):
         return kind, b"".join(toks)
     if kind == "many":
         i = r.choice(s)
-        toks[i] = toks[i] * r.choice([3, 17, 200])
+        toks[i] = toks[i] * r.choice([3, 17, 60])     # 200+ repetitions of a bracket are a nesting blow-up: see m_nesting_blowup
         return kind, b"".join(toks)
     i = r.choice(s)
     toks.insert(i, toks[i])
@@ -247,6 +247,13 @@ def blowup_text(lang: str, kind: str, n: int) -> bytes:
 
 
 def m_nesting_blowup(r, lang, b):
+    if r.random() < 0.12:
+        # one token of the donor repeated a few hundred times (an opening bracket, `not`, `-`, a keyword ...)
+        toks = _tokens(b)
+        i = r.choice(_solid(toks))
+        n = r.choice([200, 1100])
+        toks[i] = toks[i] * n
+        return f"dup-token:{n}", b"".join(toks)
     kind = r.choice(BLOWUP[lang])
     n = r.choice([60, 150, 400, 1100, 1100, 3000])
     if kind in ("if-block", "def") and lang == "py":
@@ -270,7 +277,7 @@ def m_length_blowup(r, lang, b):
                      "many-distinct-lines"])
     n = r.choice([5000, 40000, 300000])
     if kind == "long-line-tokens":
-        n = r.choice([5000, 40000, 120000] if BIG else [5000, 20000, 40000])
+        n = r.choice([5000, 40000, 80000] if BIG else [5000, 20000, 40000])
     cm = b"# " if lang == "py" else b"// "
     asg = {"py": b"x = %s\n", "ts": b"const x = %s;\n", "js": b"const x = %s;\n", "rs": b"fn f() { let x = %s; }\n"}[lang]
     if kind == "long-string":
